@@ -59,7 +59,7 @@ def corpus_scripts(pid):
     if os.path.isdir(d):
         for f in sorted(os.listdir(d)):
             if f.endswith(".script"):
-                lines = [l for l in open(os.path.join(d, f)).read().split("\n") if l and not l.startswith("#")]
+                lines = [l.replace("@C@", core.CORPUS) for l in open(os.path.join(d, f)).read().split("\n") if l and not l.startswith("#")]
                 out.append((lines, {}, "corpus-" + f))
     return out
 
@@ -202,7 +202,7 @@ def loaded_edit_scripts(ctx):
     return out
 
 def c06(ctx): return check_api_property(ctx, oracles.c06, 160, 4000, extra=column_scripts)
-def c07(ctx): return check_api_property(ctx, oracles.c07, 200, 5000, malformed=0.45, extra=lambda c: column_scripts(c) + own_points_scripts(c))
+def c07(ctx): return check_api_property(ctx, oracles.c07, 200, 5000, malformed=0.45, extra=lambda c: column_scripts(c) + own_points_scripts(c) + loaded_declare_scripts(c, 12 if c.quick else 300))
 def with_sep(scripts):
     """after every call that hands data to the object, observe the separation invariant of Model/Heap.lean on the real heap"""
     out = []
@@ -290,7 +290,31 @@ def limit_column_scripts(ctx):
         out.append((L, {"limit_column": 1}, "limit-column-" + kind))
     return out
 
-def c10(ctx): return check_api_property(ctx, oracles.c10, 200, 5000, malformed=0.5, extra=lambda c: column_scripts(c) + pset_scripts(c) + own_points_scripts(c) + limit_column_scripts(c))
+def frame_limit_scripts(ctx):
+    """C10 around the 16-bit frame count: frames stored at explicit indexes 65533 .. 65536 and appended after them; whatever the
+    call does there (the unchanged library accepts them), a refusal must not have stored the frame first"""
+    X = gen.xhex; F = gen.f2h
+    L = ["new", "dumpmode shape", "point x50", "param x504f494e54 x52415445 x 0 F - %s" % F(100.0), "mkframe v x50:3f800000:40000000:40400000:00000000 -", "frame v"]
+    for idx in (65533, 65534, 65535, 65536): L += ["frame v %d" % idx, "dump"]
+    L += ["frame v", "dump", "frame v 65535", "dump"]
+    return [(L, {"frame_limit": 1}, "frame-limit")]
+
+def loaded_declare_scripts(ctx, n):
+    """by-name declarations (`c3d::point(name)`, `c3d::analog(name)`) and a frame on objects LOADED from generated files: their
+    POINT / ANALOG groups lack the optional DESCRIPTIONS / UNITS parameters, hold 4 to 9 parameters, labels fewer or more than used"""
+    from . import c3dgen
+    d = run.workdir(); ctx._tmpdirs = getattr(ctx, "_tmpdirs", []) + [d]
+    out = []
+    for i in range(n):
+        seed = ctx.seed * 4409 + 300000 + i
+        path = os.path.join(d, "decl%d.c3d" % i)
+        desc, _ = c3dgen.make_file(seed, path, frac=(i % 4 == 1))
+        L = ["# input: python3 -c \"from vlib import c3dgen; c3dgen.make_file(%d, '%s', frac=%s)\"" % (seed, path, i % 4 == 1),
+             "dumpmode full" if i % 3 == 0 else "dumpmode shape", "load %s" % path, "point x4e4557", "dump", "analog x4e45574348", "dump", "point x4e4557", "save @W@/d.c3d", "load @W@/d.c3d"]
+        out.append((L, {"loaded_declare": 1}, "loaded-declare-%d-%s" % (seed, desc)))
+    return out
+
+def c10(ctx): return check_api_property(ctx, oracles.c10, 200, 5000, malformed=0.5, extra=lambda c: column_scripts(c) + pset_scripts(c) + own_points_scripts(c) + limit_column_scripts(c) + frame_limit_scripts(c) + loaded_declare_scripts(c, 12 if c.quick else 300))
 def c05(ctx): return check_api_property(ctx, oracles.c05, 200, 5000, with_io=True, extra=lambda c: ratio_scripts(c) + column_scripts(c) + loaded_edit_scripts(c))
 
 def pset_scripts(ctx):
@@ -693,7 +717,8 @@ def check_c02_c04(ctx, which, n_quick, n_thorough):
         wd = run.workdir()
         kind, arg = job
         if kind == "gen":
-            path = os.path.join(wd, "in.c3d"); desc, content = c3dgen.make_file(arg, path, big=(arg % 37 == 0))
+            path = os.path.join(wd, "in.c3d"); desc, content = c3dgen.make_file(arg, path, big=(arg % 37 == 0), frac=(arg % 5 == 2))
+            if arg % 5 == 2: desc += "_edge"      # broadcast rates (29.97 x 7 ...), last frame number 65535
         elif kind == "sweep":
             import random, struct
             r_ = random.Random(7)
@@ -946,7 +971,8 @@ def c17(ctx):
                 same = df is None; why = df[1] if df else ""
             if not same:
                 clause = "at_limit_roundtrip" if rel in ("below", "at") else "beyond_limit_silent"
-                fails.append((clause, {"case": name, "kind": kind, "rel": rel}, "%s content (%s) was saved without error but %s" % (rel, name, why)))
+                outcome = "unreadable" if (lrec is None or lrec["res"] != "R ok" or after is None) else "differs"
+                fails.append((clause, {"case": name, "kind": kind, "rel": rel, "outcome": outcome}, "%s content (%s) was saved without error but %s" % (rel, name, why)))
         except Exception:
             import traceback; fails.append(("_oracle_error", {}, traceback.format_exc()[-400:]))
         return case, res, fails
@@ -975,11 +1001,16 @@ def c17(ctx):
         frames = [([[Ff(float(i % 1000)), 1, 2, 3]], [[]]) for i in range(nfr)]
         b, ds = c3dgen.encode(dict(groups=groups, params=params, header=header, frames=frames), L_, r)
         open(path, "wb").write(b)
-        S = ["dumpmode full", "load %s" % path, "save @W@/o.c3d", "load @W@/o.c3d"]
+        S = ["dumpmode full", "load %s" % path, "save @W@/o.c3d", "load @W@/o.c3d", "specdecode %s" % path]
         res = run.run_pair(S, exe, wd=wd, timeout=600)
         fails = []
         try:
             d1 = run.parse_dump(res.hrecs[1]["lines"]) if res.hrecs[1]["res"] == "R ok" else None
+            # what was loaded is what the file says (frame numbers included): both generations renumbered alike would compare equal below
+            sp = [x for x in res.mrecs if x["op"] == "specdecode"]
+            if d1 is not None and sp and sp[0]["res"] == "R ok":
+                for c_, w_, dt_ in oracles.c02_compare(d1, oracles.parse_spec(sp[0]["lines"])):
+                    fails.append(("at_limit_load", dict(w_, case=tag, kind="file", clause=c_), "%s: %s" % (tag, dt_)))
             d2 = run.parse_dump(res.hrecs[3]["lines"]) if len(res.hrecs) > 3 and res.hrecs[3]["res"] == "R ok" else None
             if d1 is None: fails.append(("_input_refused", {}, res.hrecs[1]["res"]))
             elif res.hrecs[2]["res"] == "R ok":
@@ -1295,7 +1326,7 @@ def c13(ctx):
     scripts = corpus_scripts("C13")
     scripts += api_scripts(ctx, 120 if q else 3000, malformed=0.35, caller_mut=0.3, with_io=True)
     scripts += [(x[0] + ["print"], x[1], x[2]) for x in valid_scripts(ctx, 60 if q else 1500, seed_off=5000)]
-    scripts += pset_scripts(ctx) + get_scripts(ctx)[: (10 if q else 1000)]
+    scripts += pset_scripts(ctx) + get_scripts(ctx)[: (10 if q else 1000)] + loaded_declare_scripts(ctx, 16 if q else 400)
     # destruction after refused calls, print on loaded vendor files
     scripts.append((["dumpmode none", "load /repo/test/c3dFiles/Vicon.c3d", "print", "save @W@/v.c3d", "load @W@/v.c3d", "print"], {}, "vicon-print"))
     scripts.append((["dumpmode none", "load /repo/test/c3dFiles/Qualisys.c3d", "print", "load /repo/test/c3dFiles/Optotrak.c3d", "print", "save @W@/o.c3d"], {}, "qualisys-optotrak"))
